@@ -6,7 +6,7 @@ import specs, manifest_meta as mm
 props = [json.loads(l)["id"] for l in open("properties.jsonl")]
 checks = []
 for pid in props:
-    if pid not in specs.PROPS or pid in mm.NOT_APPLICABLE: continue
+    if pid not in specs.PROPS or pid in mm.NOT_APPLICABLE or pid not in mm.READY: continue
     m = mm.META.get(pid, {})
     checks.append({
         "property_id": pid, "quick_cmd": "./check %s --tier quick" % pid, "thorough_cmd": "./check %s --tier thorough" % pid,
@@ -15,7 +15,7 @@ for pid in props:
         "level_note": m.get("note", mm.DEFAULT_NOTE),
         "technique": m.get("technique", "bounded symbolic execution of the real code (clang LLVM IR -> C via ll2c -> CBMC 6.11) decided by SAT/SMT; counterexamples replayed natively"),
     })
-na = [{"property_id": p, "reason": mm.NOT_APPLICABLE.get(p, "no check built yet (work in progress); not claimed")} for p in props if p not in [c["property_id"] for c in checks]]
+na = [{"property_id": p, "reason": mm.NOT_APPLICABLE.get(p, "check not yet run clean on the unchanged tree (work in progress); not claimed")} for p in props if p not in [c["property_id"] for c in checks]]
 man = {
  "version": 1,
  "setup_cmd": "python3 -c \"import sys; sys.path.insert(0,'/verif'); import ovmbmc; ovmbmc.ensure_ll2c()\"",
